@@ -278,7 +278,13 @@ RECIPES += [
     _neutral3("endless_for_unc", "rf-only loops of both real generators: `for _send in iter(int, 1)`"),
     _neutral3("batch_zip_range", "SolveExp2.tsolve: `for i, PQFi in zip(range(1, nt), PQF.T)`"),
     _neutral3("batch_sliced_T", "SolveExp2.tsolve: enumerate(zip(PQF[ksize:].T, PQF[:ksize].T[: nt - 1]))"),
+    _neutral3("dict_dispatch", "real generator (no rf): nested functions that read the generator's own parameters, picked from a dict keyed by `j < 0`; they return the step index"),
     # ---- one wrong edit inside each new form
+    _break3("dict_dispatch", ["C08-R2", "C08-R3"], "handlers = {True: addon, False: advance}", "handlers = {True: advance, False: addon}", "dict dispatch the wrong way round"),
+    _break3("dict_dispatch", ["C08-R1"], "                    v[:, i] = Fp * di + Gp * vi + Ap * F0 + Bp * F1\n                    return i\n",
+            "                    v[:, i] = Fp * di + Gp * vi + Ap * F0 + Bp * F1\n                    return i - 1\n", "the advance handler returns the previous step as the step solved last"),
+    _break3("dict_dispatch", ["C08-R3"], "                    d[:, i] += B * F1\n                    v[:, i] += Bp * F1\n", "                    d[:, i] += Bp * F1\n                    v[:, i] += B * F1\n",
+            "add-on handler: coefficients exchanged"),
     _break3("inplace_cache", ["C08-R1", "C08-R3"], "np.add(dmpfrc1, dmpfrc1_addon, out=dmpfrc1)", "np.add(dmpfrc1, dmpfrc1_addon)", "the sum is computed but the cached force is not updated"),
     _break3("inplace_cache", ["C08-R3"], "dmpfrc1[:] = dmpfrc1 + dmpfrc1_addon", "dmpfrc1[:] = dmpfrc1 - dmpfrc1_addon", "whole-array store moves the cached force the wrong way"),
     _break3("inplace_arg", ["C08-R1", "C08-R3"], "        frc += frc_addon\n", "        frc = frc + frc_addon\n",
